@@ -302,3 +302,142 @@ mod tests {
         }
     }
 }
+
+/// Verification hooks: public wrappers around the crate-private TCP codec items.
+#[cfg(feature = "verif-hooks")]
+#[allow(unreachable_pub, missing_docs, clippy::pedantic)]
+pub mod verif_hooks {
+    use std::io::{Error, Result};
+
+    use tokio_util::codec::{Decoder, Encoder};
+
+    use crate::{
+        bytes::{Bytes, BytesMut},
+        frame::{tcp::*, RequestPdu, ResponsePdu},
+        ExceptionResponse, Request, Response,
+    };
+
+    #[derive(Debug, Default)]
+    pub struct AduDecoder(super::AduDecoder);
+
+    #[derive(Debug)]
+    pub struct ClientCodec(super::ClientCodec);
+
+    impl Default for ClientCodec {
+        fn default() -> Self {
+            Self(super::ClientCodec::new())
+        }
+    }
+
+    #[derive(Debug, Default)]
+    pub struct ServerCodec(super::ServerCodec);
+
+    impl Decoder for AduDecoder {
+        type Item = (TransactionId, UnitId, Bytes);
+        type Error = Error;
+
+        fn decode(&mut self, buf: &mut BytesMut) -> Result<Option<Self::Item>> {
+            Ok(self
+                .0
+                .decode(buf)?
+                .map(|(hdr, pdu)| (hdr.transaction_id, hdr.unit_id, pdu)))
+        }
+
+        fn decode_eof(&mut self, buf: &mut BytesMut) -> Result<Option<Self::Item>> {
+            Ok(self
+                .0
+                .decode_eof(buf)?
+                .map(|(hdr, pdu)| (hdr.transaction_id, hdr.unit_id, pdu)))
+        }
+    }
+
+    impl Decoder for ClientCodec {
+        type Item = (
+            TransactionId,
+            UnitId,
+            std::result::Result<Response, ExceptionResponse>,
+        );
+        type Error = Error;
+
+        fn decode(&mut self, buf: &mut BytesMut) -> Result<Option<Self::Item>> {
+            Ok(self
+                .0
+                .decode(buf)?
+                .map(|adu| (adu.hdr.transaction_id, adu.hdr.unit_id, adu.pdu.0)))
+        }
+
+        fn decode_eof(&mut self, buf: &mut BytesMut) -> Result<Option<Self::Item>> {
+            Ok(self
+                .0
+                .decode_eof(buf)?
+                .map(|adu| (adu.hdr.transaction_id, adu.hdr.unit_id, adu.pdu.0)))
+        }
+    }
+
+    impl Decoder for ServerCodec {
+        type Item = (TransactionId, UnitId, Request<'static>);
+        type Error = Error;
+
+        fn decode(&mut self, buf: &mut BytesMut) -> Result<Option<Self::Item>> {
+            Ok(self
+                .0
+                .decode(buf)?
+                .map(|adu| (adu.hdr.transaction_id, adu.hdr.unit_id, adu.pdu.0)))
+        }
+
+        fn decode_eof(&mut self, buf: &mut BytesMut) -> Result<Option<Self::Item>> {
+            Ok(self
+                .0
+                .decode_eof(buf)?
+                .map(|adu| (adu.hdr.transaction_id, adu.hdr.unit_id, adu.pdu.0)))
+        }
+    }
+
+    impl<'a> Encoder<(TransactionId, UnitId, Request<'a>)> for ClientCodec {
+        type Error = Error;
+
+        fn encode(
+            &mut self,
+            (transaction_id, unit_id, request): (TransactionId, UnitId, Request<'a>),
+            buf: &mut BytesMut,
+        ) -> Result<()> {
+            let adu = RequestAdu {
+                hdr: Header {
+                    transaction_id,
+                    unit_id,
+                },
+                pdu: RequestPdu(request),
+            };
+            self.0.encode(adu, buf)
+        }
+    }
+
+    impl
+        Encoder<(
+            TransactionId,
+            UnitId,
+            std::result::Result<Response, ExceptionResponse>,
+        )> for ServerCodec
+    {
+        type Error = Error;
+
+        fn encode(
+            &mut self,
+            (transaction_id, unit_id, result): (
+                TransactionId,
+                UnitId,
+                std::result::Result<Response, ExceptionResponse>,
+            ),
+            buf: &mut BytesMut,
+        ) -> Result<()> {
+            let adu = ResponseAdu {
+                hdr: Header {
+                    transaction_id,
+                    unit_id,
+                },
+                pdu: ResponsePdu(result),
+            };
+            self.0.encode(adu, buf)
+        }
+    }
+}
